@@ -118,6 +118,11 @@ def leadingA : List Char → Nat
   | 'a' :: cs => leadingA cs + 1
   | _ => 0
 
+/-- Frames in use while `next()` produces the piece at the head of `sig`: one nested generator per leading `a`
+(measured on CPython 3.12: a resumed generator costs 4/3 of a plain call against the recursion limit), plus
+the generator itself and `find_end`.  Only used to canonicalise `RecursionError`. -/
+def genFrames (sig : List Char) : Nat := 4 * leadingA sig / 3 + 2
+
 /-- `d = {}; for item in values: d[item[0]] = item[1]` - the exception it raises, if any
 (right-hand side first: `item[1]`, then `item[0]`, then the hash). -/
 def dictErr : List Shape → Option Err
@@ -230,23 +235,23 @@ def seq : Nat → List Char → Nat → Out
     | [] => { st := .ok, off := off, steps := 0, depth := 0, frames := 0, size := 0, vals := [] }
     | _ :: _ =>
       match firstType sig with
-      | .error e => fail (splitErr e) off 0 0 (leadingA sig + 2)
+      | .error e => fail (splitErr e) off 0 0 (genFrames sig)
       | .ok (ct, rest) =>
         match ct with
         | [] => fail .index off 0 0 0
         | c :: _ =>
           match T.alignOf c with
-          | none => fail .key off 0 0 (leadingA ct + 2)
+          | none => fail .key off 0 0 (genFrames ct)
           | some a =>
             let r1 := one f ct (off + padLen a off)
             match r1.st with
             | .ok =>
               let r2 := seq f rest r1.off
               { st := r2.st, off := r2.off, steps := r1.steps + r2.steps, depth := max r1.depth r2.depth,
-                frames := max (max (leadingA ct + 2) (r1.frames + 2)) r2.frames,
+                frames := max (max (genFrames ct) (r1.frames + 2)) r2.frames,
                 size := r1.size + r2.size, vals := r1.vals ++ r2.vals }
             | st => { st := st, off := r1.off, steps := r1.steps, depth := r1.depth,
-                      frames := max (leadingA ct + 2) (r1.frames + 2), size := 0, vals := [] }
+                      frames := max (genFrames ct) (r1.frames + 2), size := 0, vals := [] }
 
 /-- The `while offset < end_offset` loop of `unmarshal_array` and the `offset == end_offset` check. -/
 def loop : Nat → List Char → Nat → Nat → Nat → Out
